@@ -2,6 +2,7 @@
 From RichModel Require Import Prelude Cells Segments Ratio Frames Layout SpecLayout.
 From RichProofs Require Import CellsP SegmentsP SegmentsP2 FramesP FramesP2.
 From Coq Require Import ZifyBool.
+From RichGen Require MeasureFacts.
 
 (* a stream fits W: no line of Segment.split_lines is wider than W *)
 Definition sfits (W : Z) (s : list segZ) : Prop := Forall (fun l => line_len l <= W) (split_lines s).
@@ -56,3 +57,17 @@ Proof.
   injection H as <-. pose proof (get_normalised (den cf r ro0) avail Ha) as [A [B C]].
   unfold meas_bounds_b. lia.
 Qed.
+
+(* ---------------------------------------------------------------- T3 tie: the source of Measurement.get /
+   measure_renderables still has the shape Frames.measurement_get, Layout.measure_opt, Layout.group_child and
+   Layout.nomeasure_child write down (regenerated from the tree under check by tools/translate/t_layout.py) *)
+Lemma measure_source_facts :
+  MeasureFacts.GET_NONE_IS_CONSOLE_WIDTH = true /\ MeasureFacts.GET_GUARD_BELOW_ONE = true
+  /\ MeasureFacts.GET_NORMALIZE_WITH_MAXIMUM = true /\ MeasureFacts.GET_RETURNS_NORMALIZED = true
+  /\ MeasureFacts.GET_FALLBACK_ZERO_MAX = true /\ MeasureFacts.MR_EMPTY_IS_ZERO = true.
+Proof. repeat split; reflexivity. Qed.
+
+Theorem measure_opt_normalised : forall cf r mw m, 0 <= cW cf ->
+  match mw with Some w => 0 <= w | None => True end ->
+  measure_opt cf r mw = Ok m -> meas_bounds_b (match mw with None => cW cf | Some w => w end) m = true.
+Proof. intros cf r mw m Hc Hw H. unfold measure_opt in H. eapply measure_normalised; [destruct mw; assumption|exact H]. Qed.
